@@ -39,7 +39,8 @@ def spec_walk(spec):
 
 def make_params(values):
     import lightworks as lw
-    return [lw.Parameter(v) for v in values]
+    # labels are free text: several distinct parameters may well carry the same one
+    return [lw.Parameter(v, label=[None, "a", "a", "phi"][i % 4]) for i, v in enumerate(values)]
 
 
 def run_rewrite(case):
